@@ -531,11 +531,19 @@ fn c16_parse_multiplicative() {
 }
 
 
-// Unary level.  A harness whose operator bytes are symbolic did not finish (900 s even for one operator): parse_unary
-// recurses into itself (real code, fallible) from three call sites, and with symbolic operator bytes CBMC unrolls all
-// 3^depth instances.  The operator run is therefore concrete per harness -- one harness for each of the 3 + 9 runs of
-// one or two operators out of {'!', '~', '-'} -- and what stays symbolic is the operand digit and the byte that
-// follows the operand.  parse_primary is replaced by the tagged atom stub like every other level.
+// Unary level -- NOT RUN (registered for no tier; kept for the record).  Measured:
+//   * operator bytes symbolic, unwind 4..6: no result in 900 s even for one operator.  parse_unary recurses into itself
+//     (real code, fallible) from three call sites; CBMC merges the three return paths, after which the input length is
+//     a symbolic if-then-else and every later level is explored for all three operators again (3^depth instances);
+//   * operator run concrete per harness (below), digit and following byte symbolic, unwind 6: same (the digit byte
+//     is symbolic, so "is it another operator?" is still open at every level): TIMEOUT at 900 s;
+//   * the same with CBMC's recursion bound for parse_unary alone set to N+1 (`--cbmc-args --unwindset
+//     <mangled parse_unary>:2`; the recursion unwinding assertion is then *proved* unreachable from the digit
+//     assumption): one operator verifies, but takes 450-615 s and 6.5-7.9 M variables (1.3-1.5 M symex steps, not
+//     reduced by ManuallyDrop on the result, -Z restrict-vtable, or a smaller loop bound); two operators need
+//     13 instead of 4 instances of the body.  The driver has no per-harness CBMC arguments (the mangled name contains
+//     the crate hash), and only the two-operator harnesses would see `!!x`, so this was not taken further.
+// parse_primary is replaced by the tagged atom stub like every other level.
 /// The run `A [B] <digit> <t>` must produce exactly the nest A(B(operand)) of LogicalNot / BitwiseNot / Negate nodes,
 /// outermost first, over an operand taken from the primary level, and leave `<t>` unconsumed -- in particular `!!x` is
 /// two nodes (GNU ld: `!!x` == (x != 0)).
@@ -548,15 +556,16 @@ fn parse_unary_seq<const A: u8, const B: u8>() {
     let n: usize = if B == 0 { 1 } else { 2 };
     let buf: [u8; 4] = if B == 0 { [A, d, t, 0] } else { [A, B, d, t] };
     let mut input: &BStr = BStr::new(&buf[..n + 2]);
-    let r = parse_unary(&mut input);
-    let Ok(tree) = r else {
-        kani::cover!(true, "rejected");
+    // ManuallyDrop: no drop glue for the result at all (dropping a `Result<Expression, _>` drags in the recursive
+    // 34-variant drop of `Expression`, unrolled to the unwind bound, on a path that never holds an `Expression`)
+    let r = std::mem::ManuallyDrop::new(parse_unary(&mut input));
+    let Ok(tree) = &*r else {
         return;
     };
     kani::cover!(true, "accepted");
     assert!(input.len() == 1, "C16.parse unary level consumes its operators and one operand, nothing more");
     let ops = [A, B];
-    let mut node: &Expression<'_> = &tree;
+    let mut node: &Expression<'_> = tree;
     let mut i = 0;
     while i < n {
         let (kind, inner): (u8, &Expression<'_>) = match node {
@@ -571,7 +580,6 @@ fn parse_unary_seq<const A: u8, const B: u8>() {
     }
     let want = if under_kani() { 16 * T_PRIMARY + (d & 15) as u64 } else { (d - b'0') as u64 };
     assert!(leaf_value(node) == Some(want), "C16.parse unary operand comes from the primary level");
-    std::mem::forget(tree);
 }
 
 macro_rules! unary_harness {
